@@ -98,3 +98,28 @@ fn c17_sx127x_packet_status_total() {
     if let Ok(st) = a { assert!(st.snr >= -32 && st.snr <= 31, "C17 SNR = signed raw / 4"); }
     kani::cover!(a.is_ok() && b.is_ok(), "verif-reached: end");
 }
+
+// the LDRO bit that reaches the chip is the one decided by create_modulation_params, whatever the registers held before
+fn wire_ldro_contract<C: Sx127xVariant>(mut r: Sx127x<MockSpi, MockIv, C>, reg_write_addr: u8, bit: u8) {
+    let p = ModulationParams { spreading_factor: SFS[2 + tape::below(6)], bandwidth: BWS[tape::below(10)], coding_rate: CodingRate::_4_5, low_data_rate_optimize: tape::u8() & 1, frequency_in_hz: tape::u32() };
+    let res = r.set_modulation_params(&p);
+    let g = unsafe { &*(&raw const SPI) };
+    if res.is_ok() {
+        // the LAST write to the register that carries the LDRO bit
+        let mut val: Option<u8> = None;
+        let mut k = 0;
+        while k < LOG_LEN { if k < g.n && g.wl[k] == 2 && g.w[k][0] == reg_write_addr { val = Some(g.w[k][1]); } k += 1; }
+        assert!(val.is_some(), "C15 the register carrying LowDataRateOptimize is written");
+        assert!(((val.unwrap() >> bit) & 1) == p.low_data_rate_optimize, "C15 the LDRO bit programmed into the chip equals the decided value, on or OFF, regardless of the previous register content");
+    }
+    kani::cover!(res.is_ok() && p.low_data_rate_optimize == 0, "verif-reached: programmed off");
+    kani::cover!(res.is_ok() && p.low_data_rate_optimize == 1, "verif-reached: programmed on");
+}
+// @verif props=C15 obligation=Sx1276::set_modulation_params.wire_ldro label=proved-complete tier=quick bound="any prior register contents (arbitrary SPI read values), SF7..12 x all bandwidths"
+#[kani::proof]
+#[kani::unwind(26)]
+fn c15_sx1276_wire_ldro() { tape::init(); wire_ldro_contract(Sx127x::new(MockSpi, MockIv, Config { chip: Sx1276, tcxo_used: false, tx_boost: false, rx_boost: false }), 0x80 | 0x26, 3) }
+// @verif props=C15 obligation=Sx1272::set_modulation_params.wire_ldro label=proved-complete tier=quick bound="any prior register contents, SF7..12 x all bandwidths"
+#[kani::proof]
+#[kani::unwind(26)]
+fn c15_sx1272_wire_ldro() { tape::init(); wire_ldro_contract(Sx127x::new(MockSpi, MockIv, Config { chip: Sx1272, tcxo_used: false, tx_boost: false, rx_boost: false }), 0x80 | 0x1d, 0) }
